@@ -20,7 +20,7 @@ from hashlib import md5
 from zope.interface import Interface, implementer
 
 from twisted.cred import error
-from twisted.cred._digest import calcHA1, calcHA2, calcResponse
+from twisted.cred._digest import algorithms, calcHA1, calcHA2, calcResponse
 from twisted.python.compat import nativeString, networkString
 from twisted.python.deprecate import deprecatedModuleAttribute
 from twisted.python.randbytes import secureRandom
@@ -316,7 +316,11 @@ class DigestCredentialFactory:
             clientip = clientip.encode("ascii")
 
         # Verify the key
-        key = base64.b64decode(opaqueParts[1])
+        try:
+            key = base64.b64decode(opaqueParts[1], validate=True)
+        except ValueError:
+            # binascii.Error is a ValueError
+            raise error.LoginFailed("Invalid response, invalid opaque value")
         keyParts = key.split(b",")
 
         if len(keyParts) != 3:
@@ -377,7 +381,10 @@ class DigestCredentialFactory:
         auth = {}
         for key, bare, quoted in parts:
             value = (quoted or bare).strip()
-            auth[nativeString(key.strip())] = value
+            try:
+                auth[nativeString(key.strip())] = value
+            except UnicodeError:
+                raise error.LoginFailed("Invalid response, non-ASCII parameter name.")
 
         username = auth.get("username")
         if not username:
@@ -388,6 +395,17 @@ class DigestCredentialFactory:
 
         if "nonce" not in auth:
             raise error.LoginFailed("Invalid response, no nonce given.")
+
+        if "uri" not in auth:
+            raise error.LoginFailed("Invalid response, no uri given.")
+
+        if auth.get("algorithm", b"md5").lower() not in algorithms:
+            raise error.LoginFailed("Invalid response, unsupported algorithm.")
+
+        if auth.get("qop", b"auth") != b"auth":
+            # auth-int needs the hash of the entity body, which is not
+            # available here.
+            raise error.LoginFailed("Invalid response, unsupported qop.")
 
         # Now verify the nonce/opaque values for this client
         if self._verifyOpaque(auth.get("opaque"), auth.get("nonce"), host):
